@@ -1677,6 +1677,16 @@ def merge_nested_comprehensions(source: str) -> str:
                     new_generators.append(comprehension)
                     continue
 
+                # A list, set or dict comprehension is computed completely before the generator
+                # expression yields the first of its elements (when the generator is created, if
+                # it is in the first clause). Merged, its iterable and conditions are evaluated
+                # step by step while the generator is consumed, when they may give other values.
+                if isinstance(node, ast.GeneratorExp) and not isinstance(
+                    comprehension.iter, ast.GeneratorExp
+                ):
+                    new_generators.append(comprehension)
+                    continue
+
                 # Since sets and dicts have the effect of de-duplicating, we can merge them,
                 # but only with eachother and only if the target is the same as the inner target.
                 if (
